@@ -58,10 +58,13 @@ type Exchange struct {
 type Scenario struct {
 	ID        int          `json:"id"`
 	Family    string       `json:"fam"`
-	Conns     [][]Exchange `json:"conns"`           // one exchange list per client connection (normally one connection)
-	Pipelined bool         `json:"pipe,omitempty"`  // all requests written before the first response is read
-	Mode      string       `json:"mode,omitempty"`  // "" | concurrent | stalled_reader | interleaved
-	Sched     []int        `json:"sched,omitempty"` // interleaved: connection index of each step (even step of a connection = send its next request, odd = read and check its response)
+	Conns     [][]Exchange `json:"conns"`                // one exchange list per client connection (normally one connection)
+	Pipelined bool         `json:"pipe,omitempty"`       // all requests written before the first response is read
+	Mode      string       `json:"mode,omitempty"`       // "" | concurrent | stalled_reader | interleaved | partial_next | idle_timeout
+	Sched     []int        `json:"sched,omitempty"`      // interleaved: connection index of each step (even step of a connection = send its next request, odd = read and check its response)
+	Cut       string       `json:"cut,omitempty"`        // partial_next: where the prefix of request 2 that travels with request 1 ends
+	TimeoutMs int          `json:"timeout_ms,omitempty"` // idle_timeout: proxy.SetTimeout
+	GapMs     int          `json:"gap_ms,omitempty"`     // idle_timeout: pause between a response and the next request
 	AlsoTCP   bool         `json:"tcp,omitempty"`
 	BufCap    int          `json:"buf,omitempty"`
 }
@@ -529,7 +532,7 @@ func (g *gen) add(s Scenario) {
 	switch {
 	case s.Family == "G_gzip_seq":
 		s.AlsoTCP = true
-	case s.Mode != "" || s.Family == "E_large" || s.Family == "H_early_response":
+	case s.Mode != "" || s.Family == "E_large" || s.Family == "H_early_response" || s.Family == "T_idle_timeout":
 	case g.thorough && strings.HasPrefix(s.Family, "D"):
 		s.AlsoTCP = i%307 == 0
 	case g.thorough: // sparser than quick: loopback sockets linger in TIME_WAIT and ephemeral ports are finite
@@ -741,6 +744,30 @@ func scenarios(tier string, keep func(id int) bool) (map[int]*Scenario, int, map
 			g.add(Scenario{Family: "F_stalled_reader", Conns: [][]Exchange{{a}, {b, b}}, Mode: "stalled_reader", BufCap: 8 << 10})
 		}
 	}
+	// Family P (a prefix of the next request arrives together with a request): the client writes request 1 and
+	// a prefix of request 2 in ONE write, must then receive response 1 (it does not send the rest before),
+	// sends the rest and must receive response 2.
+	for _, a := range alpha {
+		if a.closes() {
+			continue
+		}
+		for _, b := range alpha {
+			for _, cut := range []string{"one_byte", "in_request_line", "after_request_line", "in_headers", "before_last_lf", "after_blank_line", "in_body"} {
+				if (cut == "after_blank_line" || cut == "in_body") && (b.Req.Framing == "none" || b.Req.Size < 2) {
+					continue
+				}
+				a.Req.Seg, b.Req.Seg = "one", "one"
+				g.add(Scenario{Family: "P_partial_next_request", Conns: [][]Exchange{{a, b}}, Mode: "partial_next", Cut: cut})
+			}
+		}
+	}
+	// Family T (the proxy's timeout is an idle timeout per request, not a cap on the connection's lifetime):
+	// SetTimeout(T), four requests on one connection separated by gaps g < T/2 with 3g > T. Wall-clock
+	// dependent: a run in which a measured gap reached T/2 is counted as inconclusive, not judged.
+	for _, tg := range [][2]int{{3000, 1200}, {2000, 800}} {
+		e := alpha[0]
+		g.add(Scenario{Family: "T_idle_timeout", Conns: [][]Exchange{{e, alpha[5], e, alpha[10]}}, Mode: "idle_timeout", TimeoutMs: tg[0], GapMs: tg[1]})
+	}
 	if thorough {
 		deepFamilies(g, alpha)
 	}
@@ -932,6 +959,7 @@ type runOut struct {
 	trailersRelayed, trailersDropped int
 	http10Chunked                    int
 	cl304Dropped                     int
+	inconclusive                     int
 	bodyBytes                        int64
 }
 
@@ -1280,6 +1308,116 @@ func runInterleaved(env *h1harness.Env, s *Scenario, script *originScript, out *
 	}
 }
 
+// cutPoint returns how many bytes of request wire (head+body, headLen = length of the head) travel early.
+func cutPoint(cut string, wire []byte, headLen int) int {
+	lineEnd := bytes.Index(wire, []byte("\r\n")) + 2
+	switch cut {
+	case "one_byte":
+		return 1
+	case "in_request_line":
+		return lineEnd / 2
+	case "after_request_line":
+		return lineEnd
+	case "in_headers":
+		return lineEnd + (headLen-lineEnd)/2
+	case "before_last_lf":
+		return headLen - 1
+	case "after_blank_line":
+		return headLen
+	case "in_body":
+		return headLen + (len(wire)-headLen)/2
+	}
+	return 0
+}
+
+// runScripted drives the single-connection modes partial_next and idle_timeout.
+func runScripted(env *h1harness.Env, s *Scenario, script *originScript, out *runOut, mu *sync.Mutex) {
+	exs := s.Conns[0]
+	cl, err := env.NewClient()
+	if err != nil {
+		out.findings = append(out.findings, finding{0, "harness", "client_dial_failed", err.Error()})
+		return
+	}
+	report := func(k int, sym, detail string) {
+		out.findings = append(out.findings, finding{k, s.Mode, sym, detail})
+	}
+	addOutcome := func(o string) { out.outcome = append(out.outcome, "c0:"+o) }
+	read := func(k int) bool {
+		res := cl.ReadResponse(exs[k].Req.Method)
+		out.exchanges++
+		if res.HeadErr == "" {
+			out.reached[tag(0, k)] = true
+		}
+		if !checkResponse(s, exs[k], tag(0, k), k, res, script.resps[tag(0, k)], report, addOutcome, out, mu) {
+			return false
+		}
+		if left := cl.Leftover(); len(left) > 0 {
+			report(k, "resp_trailing_garbage", fmt.Sprintf("%d bytes follow the complete response although no further request was sent: %q", len(left), trunc(left, 80)))
+			return false
+		}
+		return true
+	}
+	switch s.Mode {
+	case "partial_next":
+		r1, r2 := buildReq(s.ID, 0, 0, exs[0].Req), buildReq(s.ID, 0, 1, exs[1].Req)
+		w1, w2 := bytes.Join(r1.segs, nil), bytes.Join(r2.segs, nil)
+		headLen := bytes.Index(w2, []byte("\r\n\r\n")) + 4
+		cut := cutPoint(s.Cut, w2, headLen)
+		if err := cl.Send(append(append([]byte{}, w1...), w2[:cut]...)); err != nil {
+			report(0, "conn_closed_early", "writing failed: "+err.Error())
+			return
+		}
+		// the client does not send the rest of request 2 before it has response 1
+		if !read(0) {
+			return
+		}
+		if err := cl.Send(w2[cut:]); err != nil {
+			report(1, "conn_closed_early", "writing the rest of request 2 failed: "+err.Error())
+			return
+		}
+		if !read(1) {
+			return
+		}
+	case "idle_timeout":
+		limit := time.Duration(s.TimeoutMs) * time.Millisecond / 2
+		var done time.Time
+		for k := range exs {
+			if k > 0 {
+				time.Sleep(time.Duration(s.GapMs) * time.Millisecond)
+			}
+			err := cl.Send(buildReq(s.ID, 0, k, exs[k].Req).segs...)
+			if k > 0 && time.Since(done) >= limit {
+				out.inconclusive++ // the machine was too slow for this run to say anything
+				return
+			}
+			if err != nil {
+				report(k, "conn_closed_early", fmt.Sprintf("request %d, written %v after response %d on a connection whose idle timeout is %d ms: %v", k, time.Since(done).Round(time.Millisecond), k-1, s.TimeoutMs, err))
+				return
+			}
+			if !read(k) {
+				return
+			}
+			done = time.Now()
+		}
+	}
+	if exs[len(exs)-1].closes() {
+		extra, end := cl.Drain()
+		if len(extra) > 0 || end != h1harness.EndEOF {
+			out.findings = append(out.findings, finding{len(exs) - 1, closeCause(exs[len(exs)-1]), "conn_not_closed", fmt.Sprintf("%d extra bytes, end=%s", len(extra), end)})
+		}
+		return
+	}
+	probe := []byte("GET http://" + originHost + "/probe-" + tag(0, 0) + " HTTP/1.1\r\nHost: " + originHost + "\r\nConnection: close\r\n\r\n")
+	if err := cl.Send(probe); err != nil {
+		report(len(exs)-1, "conn_closed_early", "connection not usable for the next request: "+err.Error())
+		return
+	}
+	res := cl.ReadResponse("GET")
+	if res.HeadErr != "" || res.Status != 200 || string(res.Body) != "probe-ok" {
+		report(len(exs)-1, "next_request_not_served", fmt.Sprintf("follow-up request: head=%q status=%d", res.HeadErr, res.Status))
+	}
+}
+
 func trunc(b []byte, n int) []byte {
 	if len(b) > n {
 		return b[:n]
@@ -1498,7 +1636,7 @@ func runScenario(s *Scenario, kind string, quiet time.Duration) *runOut {
 		}
 	}
 	origin := &h1harness.Origin{Handler: script.handler, Early: script.early, Continue100: true}
-	env, err := h1harness.NewEnv(h1harness.EnvOpts{Kind: kind, BufCap: s.BufCap}, origin)
+	env, err := h1harness.NewEnv(h1harness.EnvOpts{Kind: kind, BufCap: s.BufCap, Timeout: time.Duration(s.TimeoutMs) * time.Millisecond}, origin)
 	if err != nil {
 		out.findings = append(out.findings, finding{0, "harness", "env_failed", err.Error()})
 		return out
@@ -1527,6 +1665,8 @@ func runScenario(s *Scenario, kind string, quiet time.Duration) *runOut {
 		})
 	case "interleaved":
 		runInterleaved(env, s, script, out, &mu)
+	case "partial_next", "idle_timeout":
+		runScripted(env, s, script, out, &mu)
 	default:
 		runConn(env, s, 0, script, out, &mu, nil)
 	}
@@ -1564,6 +1704,7 @@ func runCase(s *Scenario) *h1harness.CaseResult {
 	res.C["req_trailers_dropped"] += int64(o.trailersDropped)
 	res.C["chunked_to_http10_client"] += int64(o.http10Chunked)
 	res.C["content_length_dropped_on_304"] += int64(o.cl304Dropped)
+	res.C["idle_timeout_runs_inconclusive"] += int64(o.inconclusive)
 	nontrivial := len(s.Conns) > 1
 	for _, exs := range s.Conns {
 		if len(exs) > 1 {
@@ -1688,7 +1829,7 @@ func main() {
 	rep.Coverage["distinct_nontrivial"] = rep.Counter("nontrivial")
 	rep.Coverage["distinct_outcomes"] = len(agg.Keys["outcomes"])
 	rep.Coverage["exhaustive"] = rep.Incomplete == ""
-	rep.Coverage["rule"] = "every scenario of the families A (request body: 7 methods x 2 target forms x {no Expect, Expect} x body framings x sizes x write segmentations), B (request head: methods x target forms x 9 header sets x {1.1,1.0,1.0+keep-alive} x Connection: close x {no body, 1 byte}), C (response: {GET,HEAD,POST} x client Accept-Encoding {absent,gzip,identity} x protocol x every origin response shape: status x framing x size x header set x Connection: close, bodiless statuses, 1xx-then-final), X (12 request shapes x all response shapes), D (all sequences over the 6x5 reduced exchange alphabet, sequential and pipelined), G (gzip then a second exchange), E (large bodies), F (3 concurrent connections / a stalled reader on one proxy) and, in the thorough tier, D2 (length 2 over the wide 8x8 alphabet), D3 (length 3 over the wide alphabet), D4 (length 4 over the reduced alphabet), all sequential and pipelined, S (origin response cut into several writes: head/body, one write per head line, byte by byte), I (2-3 client connections whose send/receive steps interleave in every scripted order), sizes around the 4096/8192/32768/65536 boundaries and the chunk-size lists [n], [1,n-1], [n-1,1], [1]*n, [4096...], [1,2,4,...], chunk extensions, trailers is executed once; scenarios are deduplicated after truncation at the first closing exchange. A scenario is non-trivial when it relays at least one non-empty body or more than one exchange."
+	rep.Coverage["rule"] = "every scenario of the families A (request body: 7 methods x 2 target forms x {no Expect, Expect} x body framings x sizes x write segmentations), B (request head: methods x target forms x 9 header sets x {1.1,1.0,1.0+keep-alive} x Connection: close x {no body, 1 byte}), C (response: {GET,HEAD,POST} x client Accept-Encoding {absent,gzip,identity} x protocol x every origin response shape: status x framing x size x header set x Connection: close, bodiless statuses, 1xx-then-final), X (12 request shapes x all response shapes), D (all sequences over the 6x5 reduced exchange alphabet, sequential and pipelined), G (gzip then a second exchange), E (large bodies), F (3 concurrent connections / a stalled reader on one proxy), P (request 1 plus a prefix of request 2 in one write, cut at 7 points; response 1 must arrive before the rest is sent), T (SetTimeout(T), 4 requests separated by gaps < T/2 summing to > T; judged only if the measured gaps stayed below T/2) and, in the thorough tier, D2 (length 2 over the wide 8x8 alphabet), D3 (length 3 over the wide alphabet), D4 (length 4 over the reduced alphabet), all sequential and pipelined, S (origin response cut into several writes: head/body, one write per head line, byte by byte), I (2-3 client connections whose send/receive steps interleave in every scripted order), sizes around the 4096/8192/32768/65536 boundaries and the chunk-size lists [n], [1,n-1], [n-1,1], [1]*n, [4096...], [1,2,4,...], chunk extensions, trailers is executed once; scenarios are deduplicated after truncation at the first closing exchange. A scenario is non-trivial when it relays at least one non-empty body or more than one exchange."
 	rep.Coverage["bounds"] = fmt.Sprintf("tier %s: %d scenarios (families %v); sizes %s; sequences of length <= %d; <= 3 client connections; bodies <= %s", tier, total, fams,
 		map[string]string{"quick": "{0,1,4097} + 300001", "thorough": "{0,1,4095..4097,8191..8193,32767..32769,65535..65537} + 300001, 1 MiB+3, 4 MiB"}[tier], map[string]int{"quick": 2, "thorough": 4}[tier], map[string]string{"quick": "300001 B", "thorough": "4 MiB"}[tier])
 	rep.Assumptions = []string{
